@@ -2,6 +2,7 @@
 import re
 
 import a10
+import facts
 import grammar
 from astlib import calls, find_fn, fns_in_file, last, method_calls, pat_paths, render, site, strip, walk
 from pathcond import conditions_to, fact_str, facts_str, let_env
@@ -561,7 +562,7 @@ def eval_phi_argument(ctx, R, f):
         return ("O", "x@%s" % (ver,), (("version", NONE if ver is None else S("Some", ver)),))
 
     for cur in (None, 3):
-        for have in ((), (1,), (3,), (None,), (1, 3), (1, None)):
+        for have in ((), (1,), (3,), (None,), (1, 3), (1, None), (5,), (1, 5), (5, 1), (None, 5)):
             made = []
 
             def with_version(v, made=made):
@@ -1026,7 +1027,35 @@ def rule_environment(ctx, R="C14.8"):
     ctx.check(R, "Environment/version-range-covers-every-version", "range" not in bad, bad.get("range", "0 ..= the largest version handed out"), SI)
 
 
+def rule_provided_methods(ctx, R="C14.9"):
+    ctx.rule(R, "the generic SSA algorithm that the other rules read (the provided methods of the SSA traits: variables_written, has_phi_statement, insert_phi_statement, update_phi_statements, insert_ssa_variables of a block) is the code that runs: no implementation of these traits overrides a provided method")
+    from astlib import all_items
+
+    TRAITS = "program_structure/src/static_single_assignment/traits.rs"
+    provided = {}
+    for _p, it in all_items(facts.ast().get(TRAITS) or []):
+        if it["k"] == "Trait":
+            provided[it["name"]] = {x["name"] for x in it.get("items", []) if x.get("k") == "Fn" and x.get("body") is not None}
+    n_prov = sum(len(v) for v in provided.values())
+    ctx.floor(R, "provided methods of the SSA traits", n_prov, 5)
+    n_impl = 0
+    for f in facts.ast():
+        if f.startswith("program_structure_tests"):
+            continue
+        for _p, it in all_items(facts.ast().get(f) or []):
+            if it["k"] != "Impl" or not it.get("trait"):
+                continue
+            tn = re.sub(r"<.*", "", str(it["trait"])).split("::")[-1].strip()
+            if tn not in provided:
+                continue
+            n_impl += 1
+            over = sorted(x["name"] for x in it.get("items", []) if x.get("k") == "Fn" and x["name"] in provided[tn])
+            ctx.check(R, "impl %s for %s/no-provided-method-overridden" % (tn, it.get("self_ty") or it.get("ty") or "?"), not over, "overrides %s: the block-level algorithm the rules decide is replaced by this code" % over if over else "defines the required methods only", f)
+    ctx.floor(R, "implementations of the SSA traits", n_impl, 3)
+
+
 def run(ctx):
+    rule_provided_methods(ctx)
     rule_plumbing(ctx)
     rule_phi_insertion(ctx)
     rule_pipeline(ctx)
